@@ -1,6 +1,7 @@
 """C10 - hostile or malformed requests end in a client fault, never a crash.
 The error discipline, not totality."""
 import ast
+import re
 
 from ..core import (AnalysisError, dotted, unparse, calls_in, call_name,
                     walk_no_defs, parent, ancestors, ClassInfo, FuncInfo)
@@ -134,6 +135,54 @@ def rule_r1(prog, res, tier):
                 'error' in (call_name(c) or '')
                 for s in guarded.body for c in calls_in(s)
                 if call_name(c))
+            if recorded and core:
+                # nothing that can raise precedes the recording: eager
+                # formatting of request data in the handler would replace
+                # the client fault by an unhandled TypeError/ValueError
+                first_rec = None
+                for s_ in guarded.body:
+                    if any(isinstance(x, ast.Assign) and any(
+                            isinstance(t, ast.Attribute) and t.attr in (
+                                'in_error', 'out_error') for t in x.targets)
+                            for x in ast.walk(s_)):
+                        first_rec = s_
+                        break
+                eager = []
+                for s_ in guarded.body:
+                    if s_ is first_rec:
+                        break
+                    for x in ast.walk(s_):
+                        if isinstance(x, ast.BinOp) and isinstance(
+                                x.op, ast.Mod) and isinstance(
+                                x.left, ast.Constant) and isinstance(
+                                x.left.value, str) and not isinstance(
+                                x.right, (ast.Tuple, ast.Dict,
+                                          ast.Constant)):
+                            eager.append(x)
+                        if isinstance(x, ast.JoinedStr):
+                            eager.append(x)
+                        if isinstance(x, ast.Call) and call_name(x) == \
+                                'format' and isinstance(
+                                x.func, ast.Attribute) and isinstance(
+                                x.func.value, ast.Constant):
+                            eager.append(x)
+                for x in eager:
+                    k_ = '%s|%s|eager-format|%s' % (f.qualname, nm,
+                                                     unparse(x)[:40])
+                    if k_ in getattr(res, '_c10_eager', set()):
+                        continue
+                    res._c10_eager = getattr(res, '_c10_eager', set()) | {k_}
+                    res.ob('R1', '%s:%d' % (rel, x.lineno), inst +
+                           ': handler formats %s before recording' %
+                           unparse(x)[:50], 'VIOLATED')
+                    res.finding('R1', k_, '%s:%d' % (rel, x.lineno),
+                                'the Fault handler evaluates %s before it '
+                                'records the fault: when the operand is a '
+                                'tuple (a MessagePack envelope) or otherwise '
+                                'unformattable the %% operator raises, the '
+                                'client fault is lost and an unhandled '
+                                'exception leaves the server' %
+                                unparse(x)[:60])
             if recorded:
                 res.ob('R1', where, inst + ' inside try/except %s recording '
                        'the fault' % ('/'.join(handler_names(guarded)) or
@@ -719,6 +768,46 @@ def rule_r8(prog, res):
               c13.rule_r4, prog, Result)
 
 
+# ------------------------------------------------------------------ R10
+def rule_r10(prog, res):
+    res.rule('R10', 'default fault messages embed client-chosen values with '
+             '%r (escaped), never %s')
+    m = prog.module('spyne.error')
+    n = 0
+    # fault classes whose first argument is chosen by the client (confirmed
+    # by reading the raise sites): the requested method name / resource, and
+    # the offending request value
+    client_valued = ('ResourceNotFoundError', 'ValidationError',
+                     'ResourceAlreadyExistsError')
+    for f in m.functions.values():
+        if f.name != '__init__' or f.cls is None or \
+                f.cls.name not in client_valued:
+            continue
+        a = f.node.args
+        pos = a.args
+        defaults = [None] * (len(pos) - len(a.defaults)) + list(a.defaults)
+        for p_, d in zip(pos, defaults):
+            if d is None or not (isinstance(d, ast.Constant) and isinstance(
+                    d.value, str)) or '%' not in d.value:
+                continue
+            n += 1
+            raw = re.findall(r'%[-#0 +]*\d*(?:\.\d+)?([a-zA-Z])', d.value)
+            bad = [c for c in raw if c in ('s',)]
+            where = '%s:%d' % (m.relpath, d.lineno)
+            res.ob('R10', where, '%s: default %s = %r' % (
+                f.qualname, p_.arg, d.value), 'VIOLATED' if bad else 'ok')
+            if bad:
+                res.finding('R10', '%s|raw-placeholder|%s' % (f.qualname,
+                                                              p_.arg), where,
+                            '%s builds its message with %r: the value named '
+                            'by the client (an unknown method name, a key) '
+                            'is copied unescaped into the fault string, and '
+                            'control characters or lone surrogates in it make '
+                            'the XML/text fault writers raise instead of '
+                            'answering' % (f.qualname, d.value))
+    res.floor('R10', 'default fault message templates', n, 2)
+
+
 def run(prog, res, tier):
     res.run_rule(rule_r8, prog, res)
     res.run_rule(rule_r7, prog, res)
@@ -728,6 +817,7 @@ def run(prog, res, tier):
     res.run_rule(rule_r2, prog, res, ef)
     res.run_rule(rule_r3, prog, res, ef, tier)
     res.run_rule(rule_r9, prog, res, ef)
+    res.run_rule(rule_r10, prog, res)
     res.run_rule(rule_r4, prog, res, tier)
     res.run_rule(rule_r5, prog, res)
     res.run_rule(rule_r6, prog, res, tier)
@@ -745,6 +835,22 @@ _H = 'spyne/protocol/dictdoc/hier.py'
 _MI = 'spyne/protocol/soap/mime.py'
 
 MUTANTS = [
+    Mutant('handler-eager-format', 'R1', 'fire', 'spyne/server/_base.py',
+           in_func('ServerBase.get_in_object',
+                   'logger.debug("Failed document is: %s", ctx.in_document)',
+                   'logger.debug("Failed document is: %s" % '
+                   'ctx.in_document)'), 'eager-format'),
+    Mutant('handler-format-tuple-wrapped', 'R1', 'benign',
+           'spyne/server/_base.py',
+           in_func('ServerBase.get_in_object',
+                   'logger.debug("Failed document is: %s", ctx.in_document)',
+                   'logger.debug("Failed document is: %s" % '
+                   '(ctx.in_document,))'), None),
+    Mutant('not-found-message-unescaped', 'R10', 'fire', 'spyne/error.py',
+           in_func('ResourceNotFoundError.__init__',
+                   '"Requested resource %r not found"',
+                   '"Requested resource \'%s\' not found"'),
+           'raw-placeholder'),
     Mutant('phase-call-before-try', 'R1', 'fire', _B,
            in_func('ServerBase.generate_contexts',
                    r"        try:\n            # sets ctx\.in_document\n"
